@@ -830,6 +830,135 @@ def index_reads(g, buf, within=None):
     return out
 
 
+def coverage_at(c, g, n, inb, env):
+    """input indices of buffer `inb` inspected on every path to node n (constant-index reads, counted loops,
+    memcpy / field readers with constant lengths); env = constants (enum values, bound parameters)"""
+    covered, how = set(), []
+    # direct constant-index reads that dominate the accept site
+    for m, ie in index_reads(g, inb):
+        v = const_eval(ie, env)
+        if v is not None and g.dominates(m, n):
+            covered.add(v)
+    # counted loops `for (i = A; i < B; i++) if (in[i]) reject` that dominate the accept site
+    for h in g.nodes:
+        if h.kind != "loophead" or not g.dominates(h, n):
+            continue
+        brs = [s for s in h.succ if s is not None and s.kind == "branch"]
+        if not brs:
+            continue
+        m = re.match(r"\((\w+) < (.+)\)$", g.r(brs[0].expr))
+        if not m:
+            continue
+        iv = m.group(1)
+        hi = const_eval(brs[0].expr["inner"][1] if strip(brs[0].expr).get("kind") == "BinaryOperator" else None, env) if strip(brs[0].expr).get("kind") == "BinaryOperator" else None
+        if hi is None:
+            hi = const_eval(strip(brs[0].expr)["inner"][1], env)
+        init = g.loop_init(h, iv)
+        lo = const_eval(init, env) if init is not None else None
+        body_reads = [mm for mm, ie in index_reads(g, inb) if g.r(ie) == iv and g.dominates(brs[0], mm)]
+        if lo is not None and hi is not None and body_reads:
+            covered |= set(range(lo, hi))
+            how.append("loop %s in [%d,%d)" % (iv, lo, hi))
+    # memcpy(temp, in, K) / reads through callee readers that dominate the accept site
+    for m, call in g.calls():
+        cn = callee_name(call)
+        args = call["inner"][1:]
+        if not g.dominates(m, n):
+            continue
+        if cn == "memcpy" and g.r(args[1]) == inb:
+            k = const_eval(args[2], env)
+            if k:
+                covered |= set(range(0, k))
+                how.append("memcpy %d" % k)
+        if cn in ("Fp_read_bytes", "Fp2_read_bytes") and base_name(g.r(args[1])) == inb:
+            k = const_eval(args[2], env)
+            off = 0
+            mo = re.match(r"\(%s \+ (\d+)\)" % inb, g.r(args[1]))
+            if mo:
+                off = int(mo.group(1))
+            if k:
+                covered |= set(range(off, off + k))
+    return covered, how
+
+
+def head_of(g, n):
+    """innermost loop head dominating n (entry node if none)"""
+    best = g.entry
+    for h in g.nodes:
+        if h.kind == "loophead" and g.dominates(h, n) and h.id in g.reach_from(n):
+            if g.dominates(best, h):
+                best = h
+    return best
+
+
+def rule_vector_loop(c, rule, key_elem, key_stride=None):
+    """G2_vector_read_bytes: wherever the loop moves on to the next element (the statement that increments
+    the index), element i was read from byte offset 96·i of the source with a VALID result and tested for
+    G2 membership.  Recognised addressing: a cursor that starts at the source and advances by 96 per
+    iteration, or the offset `src + i*96` computed from the index."""
+    g = c.cfg(rule, "G2_vector_read_bytes")
+    if not g:
+        return
+    A, src, ln = [p["name"] for p in c.p.params("G2_vector_read_bytes")]
+    # index variable: the one compared with the length in the loop condition
+    idx = None
+    for n in g.nodes:
+        if n.kind == "branch":
+            m = re.fullmatch(r"\((\w+) < %s\)" % re.escape(ln), g.r(n.expr))
+            if m:
+                idx = m.group(1)
+    if idx is None:
+        c.und(rule, key_elem, c.p.pos(g.f), "loop over the vector elements not recognised")
+        return
+    steps = []
+    for n in g.nodes:
+        if n.kind == "stmt" and n.expr is not None:
+            for x in walk(n.expr):
+                if x.get("kind") == "UnaryOperator" and x.get("opcode") == "++" and g.r(x["inner"][0]) == idx:
+                    steps.append(n)
+                if x.get("kind") == "CompoundAssignOperator" and x.get("opcode") == "+=" and g.r(x["inner"][0]) == idx:
+                    steps.append(n)
+    if not steps:
+        c.und(rule, key_elem, c.p.pos(g.f), "index increment not recognised")
+        return
+    # a byte cursor advanced in the body moves on before the index does: judge at the earliest moving statement
+    movers = list(steps)
+    for n in g.nodes:
+        if n.kind == "stmt" and n.expr is not None and n not in movers:
+            if any(x.get("kind") == "CompoundAssignOperator" and x.get("opcode") == "+=" and const_eval(x["inner"][1], c.p.enums) == 96 for x in walk(n.expr)):
+                movers.append(n)
+    steps = [n for n in movers if not any(m is not n and g.dominates(m, n) and not g.dominates(n, m) and g.dominates(head_of(g, n), m) for m in movers)]
+    obj = "&%s[%s]" % (A, idx)
+    stride_ok = True
+    why = ""
+    for n in steps:
+        facts = g.resolved_facts(n)
+        reads = [f for f in facts if f.startswith("E2_read_bytes(%s, " % obj) and f.endswith(", 96) == VALID")]
+        okk = bool(reads) and ("E2_in_G2(%s) != 0" % obj) in facts
+        c.check(okk, rule, key_elem, c.pos(g, n), "each element: read checked and G2 membership tested before moving on", "an element can be skipped past without read==VALID and the G2 membership test", facts)
+        # where the bytes come from
+        good = False
+        for f in reads:
+            ptr = f[len("E2_read_bytes(%s, " % obj):-len(", 96) == VALID")]
+            if re.fullmatch(r"\(%s \+ \((%s \* 96|96 \* %s)\)\)" % (re.escape(src), idx, idx), ptr) or ptr == "&%s[(%s * 96)]" % (src, idx) or ptr == "&%s[(96 * %s)]" % (src, idx):
+                good = True
+            elif re.fullmatch(r"\w+", ptr):
+                # cursor: initialised to the source before the loop, advanced by 96 exactly once on the way to the increment
+                ev = " ".join(compound_events(g))
+                heads = [h for h in g.nodes if h.kind == "loophead"]
+                init = g.loop_init(heads[0], ptr) if heads else None
+                if init is not None and base_name(g.r(init)) == src and ("%s += 96" % ptr) in ev:
+                    advs = [x for x in g.nodes if x.kind == "stmt" and x.expr is not None and ("(%s += 96)" % ptr) in g.r(x.expr)]
+                    incs = [x for x in g.nodes if x.kind == "stmt" and x.expr is not None and any(y.get("kind") == "UnaryOperator" and y.get("opcode") == "++" and g.r(y["inner"][0]) == idx for y in walk(x.expr))]
+                    # exactly one advance, on every way to the index increment
+                    if len(advs) == 1 and incs and all(g.dominates(advs[0], i_) for i_ in incs):
+                        good = True
+        if not good:
+            stride_ok, why = False, "element %s is not read from byte offset 96·%s of the source" % (idx, idx)
+    if key_stride:
+        c.check(stride_ok, rule, key_stride, c.p.pos(g.f), "elements are 96 bytes apart", "element stride is not G2_SER_BYTES: " + why)
+
+
 def rule_C05(c):
     c.floor("C05.R1", 4)
     c.floor("C05.R2", 20)
@@ -851,50 +980,39 @@ def rule_C05(c):
             if "%s == %d" % (inl, N) not in facts:
                 c.viol("C05.R1", "%s/accept:%s/length" % (fn, "infinity" if inf_branch else "point"), c.pos(g, n), "acceptance without the length being fixed to %d" % N, facts)
                 continue
-            # direct constant-index reads that dominate the accept site
-            for m, ie in index_reads(g, inb):
-                v = const_eval(ie, c.p.enums)
-                if v is not None and g.dominates(m, n):
-                    covered.add(v)
-            # counted loops `for (i = A; i < B; i++) if (in[i]) reject` that dominate the accept site
-            for h in g.nodes:
-                if h.kind != "loophead" or not g.dominates(h, n):
+            cov, hw = coverage_at(c, g, n, inb, c.p.enums)
+            covered |= cov
+            how += hw
+            # a predicate helper the rules do not know (`if (!encoding_is_clear(in, 48)) reject`): what it inspected when it said yes
+            for f in facts:
+                mo = re.match(r"^([A-Za-z_]\w*)\((.*)\) != 0$", f)
+                if not mo or mo.group(1) not in c.p.funcs:
                     continue
-                brs = [s for s in h.succ if s is not None and s.kind == "branch"]
-                if not brs:
+                try:
+                    from cvocab import CVOCAB
+                except Exception:
+                    CVOCAB = set()
+                hn = mo.group(1)
+                if hn in CVOCAB:
                     continue
-                m = re.match(r"\((\w+) < (.+)\)$", g.r(brs[0].expr))
-                if not m:
+                hargs = cast.split_args(mo.group(2))
+                hparams = [p_["name"] for p_ in c.p.params(hn)]
+                if len(hargs) != len(hparams) or inb not in hargs:
                     continue
-                iv = m.group(1)
-                hi = const_eval(brs[0].expr["inner"][1] if strip(brs[0].expr).get("kind") == "BinaryOperator" else None, c.p.enums) if strip(brs[0].expr).get("kind") == "BinaryOperator" else None
-                if hi is None:
-                    hi = const_eval(strip(brs[0].expr)["inner"][1], c.p.enums)
-                init = g.loop_init(h, iv)
-                lo = const_eval(init, c.p.enums) if init is not None else None
-                body_reads = [mm for mm, ie in index_reads(g, inb) if g.r(ie) == iv and g.dominates(brs[0], mm)]
-                if lo is not None and hi is not None and body_reads:
-                    covered |= set(range(lo, hi))
-                    how.append("loop %s in [%d,%d)" % (iv, lo, hi))
-            # memcpy(temp, in, K) / reads through callee readers that dominate the accept site
-            for m, call in g.calls():
-                cn = callee_name(call)
-                args = call["inner"][1:]
-                if not g.dominates(m, n):
-                    continue
-                if cn == "memcpy" and g.r(args[1]) == inb:
-                    k = const_eval(args[2], c.p.enums)
-                    if k:
-                        covered |= set(range(0, k))
-                        how.append("memcpy %d" % k)
-                if cn in ("Fp_read_bytes", "Fp2_read_bytes") and base_name(g.r(args[1])) == inb:
-                    k = const_eval(args[2], c.p.enums)
-                    off = 0
-                    mo = re.match(r"\(%s \+ (\d+)\)" % inb, g.r(args[1]))
-                    if mo:
-                        off = int(mo.group(1))
-                    if k:
-                        covered |= set(range(off, off + k))
+                env = dict(c.p.enums)
+                for pn, av in zip(hparams, hargs):
+                    if re.fullmatch(r"-?\d+", av):
+                        env["$param:" + pn] = int(av)
+                hg = c.p.cfg(hn)
+                hb = hparams[hargs.index(inb)]
+                sets = []
+                for hn_ in hg.nodes:
+                    if hn_.kind == "ret" and hn_.expr is not None and const_eval(hn_.expr, c.p.enums) not in (None, 0):
+                        cv, _ = coverage_at(c, hg, hn_, hb, env)
+                        sets.append(cv)
+                if sets:
+                    covered |= set.intersection(*sets)
+                    how.append("helper %s" % hn)
             missing = sorted(set(range(N)) - covered)
             key = "%s/accept:%s/byte-coverage" % (fn, "infinity" if inf_branch else "point")
             c.check(not missing, "C05.R1", key, c.pos(g, n), "every input byte is inspected before acceptance (%s)" % ", ".join(how),
@@ -986,14 +1104,7 @@ def rule_C05(c):
             if n.kind == "ret" and n.expr is not None and g.r(n.expr) == "VALID":
                 facts = g.resolved_facts(n)
                 c.check("i >= %s" % ln in facts, "C05.R2", "G2_vector_read_bytes/accept/all-elements", c.pos(g, n), "accepts only after the loop over all elements finished", "vector accepted before all %s elements were read" % ln, facts)
-        lat = [n for n in g.nodes if n.kind == "stmt" and n.tag == "inc"]
-        adv = [n for n in g.nodes if n.kind == "stmt" and n.tag != "inc" and any(x.get("kind") == "CompoundAssignOperator" for x in walk(n.expr)) and lat and g.dominates(n, lat[0])]
-        for n in adv:
-            facts = g.resolved_facts(n)
-            okk = any(f.startswith("E2_read_bytes(&%s[i], p, 96) == VALID" % A) for f in facts) and "E2_in_G2(&%s[i]) != 0" % A in facts
-            c.check(okk, "C05.R2", "G2_vector_read_bytes/element", c.pos(g, n), "each element: read checked and G2 membership tested before moving on", "an element can be skipped past without read==VALID and the G2 membership test", facts)
-        ev = " ".join(compound_events(g))
-        c.check("p += 96" in ev, "C05.R2", "G2_vector_read_bytes/stride", c.p.pos(g.f), "elements are 96 bytes apart", "element stride is not G2_SER_BYTES")
+        rule_vector_loop(c, "C05.R2", "G2_vector_read_bytes/element", "G2_vector_read_bytes/stride")
     # ---- R3 Fp2 layout: reader = writer, and vs. the cited ZCash order (c1 first)
     lay = {}
     for fn, sub in (("Fp2_read_bytes", "Fp_read_bytes"), ("Fp2_write_bytes", "Fp_write_bytes")):
@@ -1127,14 +1238,7 @@ def rule_C07(c):
             if n.kind == "ret" and n.expr is not None and g.r(n.expr) == "VALID":
                 facts = g.resolved_facts(n)
                 c.check("i >= %s" % ln in facts, "C07.R5", "G2_vector_read_bytes/all-elements", c.pos(g, n), "VALID only after all elements", "vector accepted early", facts)
-        lat = [n for n in g.nodes if n.kind == "stmt" and n.tag == "inc"]
-        adv = [n for n in g.nodes if n.kind == "stmt" and n.tag != "inc" and any(x.get("kind") == "CompoundAssignOperator" for x in walk(n.expr)) and lat and g.dominates(n, lat[0])]
-        if not adv:
-            c.und("C07.R5", "G2_vector_read_bytes/element-in-G2", c.p.pos(g.f), "pointer-advance idiom not recognised")
-        for n in adv:
-            facts = g.resolved_facts(n)
-            okk = any(f.startswith("E2_read_bytes(&%s[i], p, 96) == VALID" % A) for f in facts) and "E2_in_G2(&%s[i]) != 0" % A in facts
-            c.check(okk, "C07.R5", "G2_vector_read_bytes/element-in-G2", c.pos(g, n), "every vector element is parsed and G2-checked", "a verification-vector element can pass without the G2 membership test", facts)
+        rule_vector_loop(c, "C07.R5", "G2_vector_read_bytes/element-in-G2")
     g = c.cfg("C07.R5", "G2_check_log")
     if g:
         x, y = [p["name"] for p in c.p.params("G2_check_log")]
